@@ -138,3 +138,73 @@ REWRITES = [
     ("C13-r02 newaxis instead of reshape", FD, "SD_est", "Yall.reshape(n_all, 1, Ndat)", "Yall[:, None, :]", 2),
     ("C13-r03 grid spacing as one quotient", FD, "SD_est", "np.arange(0, Sy.shape[2]) * (1 / dt / nxseg)", "np.arange(0, Sy.shape[2]) * (1 / (dt * nxseg))"),
 ]
+
+
+_check_base = check
+
+
+def check(prog, run):
+    _check_base(prog, run)
+    cor_chain(prog, run)
+
+
+def cor_chain(prog, run):
+    run.rule("R-cor-chain", "correlogram estimator: raw (boxcar, non-overlapping, zero-padded) periodogram -> inverse FFT -> exponential lag window -> FFT", 4)
+    fi = prog.func(FN)
+    f = rel(prog.mods[fi.mod].path)
+    pos, _, _, _ = astq.params_of(fi.node)
+    pf = astq.PrunedFn(fi, {pos[4]: "cor"})
+    rets = [n for n in ast.walk(pf.node) if isinstance(n, ast.Return) and isinstance(n.value, ast.Tuple)]
+    if not rets:
+        run.ob("R-cor-chain", fi.qual, "return", None, "no tuple return on the 'cor' path", file=f)
+        return
+    x = astq.expr_at(pf, rets[-1], rets[-1].value.elts[1])
+    ok_outer = isinstance(x, ast.Call) and astq.callee_name(prog, pf, x) == "numpy.fft.rfft" and x.args
+    inner = x.args[0] if ok_outer else None
+    ok_mid = isinstance(inner, ast.BinOp) and isinstance(inner.op, ast.Mult)
+    ir = win = None
+    if ok_mid:
+        for a, b in ((inner.left, inner.right), (inner.right, inner.left)):
+            if isinstance(a, ast.Call) and astq.callee_name(prog, pf, a) == "numpy.fft.irfft":
+                ir, win = a, b
+    run.ob("R-cor-chain", fi.qual, "Sy = rfft(irfft(P) * window)", bool(ok_outer and ok_mid and ir is not None), f"`{astq.src(x, 100)}`", witness=astq.src(x, 80), file=f, node=rets[-1])
+    if ir is None:
+        return
+    src_p = ir.args[0] if ir.args else None
+    okp = isinstance(src_p, ast.Subscript) and isinstance(src_p.slice, ast.Constant) and src_p.slice.value == 1 and isinstance(src_p.value, ast.Call) \
+        and astq.callee_name(prog, pf, src_p.value) == "scipy.signal.csd"
+    run.ob("R-cor-chain", fi.qual, "P = cross spectrum returned by csd", okp, f"`{astq.src(src_p, 60) if src_p is not None else None}`", witness=astq.src(src_p, 60) if src_p is not None else "none", file=f, node=rets[-1])
+    if okp:
+        c = src_p.value
+        se = symidx.SymEval(prog, pf)
+        w = astq.kwarg(c, "window")
+        nov = astq.kwarg(c, "noverlap")
+        nfft = se.ev(astq.kwarg(c, "nfft")) if astq.kwarg(c, "nfft") is not None else None
+        nps = astq.kwarg(c, "nperseg")
+        okk = isinstance(w, ast.Constant) and w.value == "boxcar" and isinstance(nov, ast.Constant) and nov.value == 0 and nfft is not None and nfft == P.s("nxseg") \
+            and nps is not None and astq.src(nps).replace(" ", "") in ("nxseg//2", "int(nxseg/2)")
+        run.ob("R-cor-chain", fi.qual, "raw periodogram: boxcar window, no overlap, segments of nxseg/2 zero-padded to nxseg", okk,
+               f"window={astq.src(w) if w is not None else None}, noverlap={astq.src(nov) if nov is not None else None}, nfft={nfft!r}, nperseg={astq.src(nps) if nps is not None else None}",
+               witness=f"{astq.src(w) if w is not None else None}/{astq.src(nov) if nov is not None else None}/{nfft!r}", file=f, node=c)
+    okw = isinstance(win, ast.Call) and astq.callee_name(prog, pf, win) == "scipy.signal.windows.exponential"
+    detail = astq.src(win, 100) if win is not None else "none"
+    if okw:
+        cen = astq.kwarg(win, "center", 1)
+        sym = astq.kwarg(win, "sym", 3)
+        tau = astq.kwarg(win, "tau", 2)
+        okw = isinstance(cen, ast.Constant) and cen.value == 0 and isinstance(sym, ast.Constant) and sym.value is False and tau is not None
+        if okw:
+            # tau = -M / log(0.01): the window falls to 1 % at the last lag
+            t = astq.src(tau, 4000).replace(" ", "")
+            okw = "log(0.01)" in t and t.startswith("-")
+    run.ob("R-cor-chain", fi.qual, "exponential lag window starting at lag 0 and decaying to 1 % at the last lag", bool(okw), f"`{detail}`", witness=detail[:80], file=f, node=rets[-1])
+
+
+MUTANTS += [
+    ("C13-m09 correlogram window centred in the middle of the lags", FD, "SD_est", "signal.windows.exponential(Rxy.shape[2], center=0, tau=tau, sym=False)", "signal.windows.exponential(Rxy.shape[2], tau=tau)"),
+    ("C13-m10 correlogram from a Hann periodogram", FD, "SD_est", "'boxcar'", "'hann'"),
+    ("C13-m11 window applied to the spectrum instead of the correlation", FD, "SD_est", "Sy = np.fft.rfft(Rxy)", "Sy = np.fft.rfft(np.fft.irfft(Pxy)) * win[:Pxy.shape[2]]"),
+]
+REWRITES += [
+    ("C13-r04 explicit product instead of in-place", FD, "SD_est", "Rxy *= win", "Rxy = Rxy * win"),
+]
